@@ -10,9 +10,9 @@ ENGINE = 'jit'
 
 
 def run(chk, engine=ENGINE, prop='C03'):
-    res = vlib.prove(chk, UNITS if prop == 'C03' else ['Opcodes', 'Codec', 'ClAlu', 'ClJmp', 'ClMem', 'ClMisc', 'Clir'],
-                     MODELS if prop == 'C03' else ['theories/ClirSem.vo', 'gen/ClAlu.vo', 'gen/ClJmp.vo', 'gen/ClMem.vo', 'gen/ClMisc.vo'], prop,
-                     PROOFS if prop == 'C03' else ['theories/ClAluProofs.v', 'theories/ClJmpProofs.v', 'theories/ClMemProofs.v', 'theories/ClMiscProofs.v', 'theories/InterpProofs.v'])
+    res = vlib.prove(chk, UNITS if prop == 'C03' else ['Opcodes', 'Codec', 'Verifier', 'ClAlu', 'ClJmp', 'ClMem', 'ClMisc', 'ClCfg', 'Clir'],
+                     MODELS if prop == 'C03' else ['theories/ClirSem.vo', 'gen/ClAlu.vo', 'gen/ClJmp.vo', 'gen/ClMem.vo', 'gen/ClMisc.vo', 'gen/ClCfg.vo', 'theories/Verifier.vo'], prop,
+                     PROOFS if prop == 'C03' else ['theories/ClAluProofs.v', 'theories/ClJmpProofs.v', 'theories/ClMemProofs.v', 'theories/ClMiscProofs.v', 'theories/ClCfgProofs.v', 'theories/VerifierProofs.v', 'theories/InterpProofs.v'])
     found = False
     if res['model_ok']:
         binary = vlib.harness_build('debug')
